@@ -490,11 +490,24 @@ func routingTable(w *World, r *Report, rule string) {
 			}
 			return ""
 		}
-		return map[string]string{
+		labels := map[string]string{
 			"p0.Sender.AddNonce()": "AddNonce",
 			"p0.AcctHandler.SetAccountCommittable(p0.Sender, p0.Exec)": "Mark",
 			"p0.Sender.SubBalance(" + feeExpr + ")":                    "SubFee",
-		}[w.canonCallI(c.Common())]
+		}
+		if l, ok := labels[w.canonCallI(c.Common())]; ok {
+			return l
+		}
+		// the call as written, with only its arguments' helpers inlined (the callee
+		// itself may be a one-line wrapper, which canonCallI would look through)
+		if f := c.Common().StaticCallee(); f != nil && f.Signature.Recv() != nil && len(c.Common().Args) > 0 {
+			var as []string
+			for _, a := range c.Common().Args[1:] {
+				as = append(as, w.CanonI(a))
+			}
+			return labels[w.Canon(c.Common().Args[0])+"."+f.Name()+"("+strings.Join(as, ", ")+")"]
+		}
+		return ""
 	}
 	// any other AddNonce / nonce-relevant call in postRunTrx is reported
 	for _, c := range CallsIn(post) {
